@@ -99,12 +99,13 @@ type ContractFile struct {
 	Specs   map[string]*SpecFunc
 	Types   map[string]*TypeContract
 	Lemmas  []*Lemma
+	PkgInvs []*Clause
 	Order   []string
 }
 
 var clauseKw = map[string]bool{"func": true, "type": true, "spec": true, "lemma": true, "props": true, "arith": true,
 	"nopanic": true, "requires": true, "ensures": true, "modifies": true, "loop": true, "let": true, "trusted": true,
-	"invariant": true, "note": true, "package": true, "frame": true, "hyp": true, "concl": true, "params": true, "call": true, "immutable": true}
+	"invariant": true, "note": true, "package": true, "frame": true, "hyp": true, "concl": true, "params": true, "call": true, "immutable": true, "package_invariant": true}
 
 // logical lines: a //@ line whose first word is not a keyword continues the previous one.
 type logLine struct {
@@ -287,6 +288,12 @@ func ParseContractFile(path, pkgPath string) (*ContractFile, error) {
 			} else {
 				return nil, fail(l, "props outside func/lemma")
 			}
+		case "package_invariant":
+			c, err := mk(l, kw, label, rest)
+			if err != nil {
+				return nil, err
+			}
+			cf.PkgInvs = append(cf.PkgInvs, c)
 		case "immutable":
 			if curT == nil {
 				return nil, fail(l, "immutable outside type")
